@@ -1563,6 +1563,10 @@ impl MintAssets {
         if value.0 == 0 {
             return Err(JsError::from_str("MintAssets cannot be created with 0 value"));
         }
+        // mint = multiasset<nonZeroInt64>
+        if value.0 < i64::MIN as i128 || value.0 > i64::MAX as i128 {
+            return Err(JsError::from_str("MintAssets value is out of the int64 range"));
+        }
         Ok(self.0.insert(key.clone(), value.clone()))
     }
 
